@@ -2,6 +2,7 @@
 import time
 
 from checks import e2e_pages
+from checks import l2walk
 from engine import extra, lexatn
 
 PROPERTY = "C01"
@@ -12,12 +13,13 @@ EXPLANATION = (
     "line, ZID and dates is verified against a transition contract over the compiler state, with 'nothing else changed' "
     "as frame obligations (VCs generated from the real AST of _file_compiler.py, z3/cvc5). Token-shape preconditions "
     "(ZID, DATE, PRIORITY, todo prefix) are checked against the generated lexer's ATN by automata. "
-    "Level 2 (the walk over every parse tree) is NOT discharged deductively: the composition of the per-method contracts "
-    "along the grammar is covered by the bounded end-to-end check (abstract pages rendered and compiled through "
+    "Level 2 (deductive, all parse trees): the walk of the listener over every derivation of ZorgFileParser.atn is verified over a predicate abstraction of the compiler state (engine/l2.py): each listener method is replaced by its Level-1 contract (one symbolic summary per method, abstract transformers by all-SAT), reachability over the ATN with rule summaries is the inductive invariant, and the walk obligations hold on it: the scope flags encode the syntactic region at every word (G1), a section's stores are empty when it is entered and reset when it is left (G3), parent sections are open (G6), the todo registers hold their defaults at every item (G5), note registers are reset and a block is open at every note, everything is closed at the end, and every precondition of a listener method holds at every call of the walk. "
+    "What the abstraction does not carry (the order of notes inside a block as a sequence, bodies and line numbers along "
+    "the walk) is tied to the statement by the bounded end-to-end check (abstract pages rendered and compiled through "
     "walk_zorg_page, oracle written from the statement). The bullet-property scan of _add_note is outside the VC generator "
     "(its contract is proved for bodies without ':: ' markers) and is covered by the same bounded check."
 )
-ASSUMPTIONS = [
+ASSUMPTIONS = l2walk.ASSUMPTIONS + [
     "A-ANTLR-TREE: the parse tree is a derivation in the parser's ATN; ParseTreeWalker calls enter/exit in document order; getText() is the concatenation of leaf texts; start.line is the 1-based line of the first token",
     "A-ASCII: page text is ASCII (antlr FileStream(errors='ignore') drops the rest)",
     "datetime.strptime raises ValueError iff the text is not a calendar date in the format (uninterpreted valid/parse functions)",
@@ -50,5 +52,5 @@ def pages(tier, seed):
 
 
 replay_page = e2e_pages.replay_page
-EXTRA = [token_shapes]
+EXTRA = [token_shapes, l2walk.l2_file_walk]
 BOUNDED = [pages]
